@@ -36,10 +36,10 @@ GoInit(labels, auto) == [mutable |-> labels, cache |-> labels, recache |-> FALSE
 IsCount(v, n) == Tag(v) = "i" /\ v[2] = n
 GoContains(ix, v) == IF ix.hasMap THEN Member(ix.mutable, v) ELSE (Tag(v) = "i" /\ v[2] >= 0 /\ v[2] < Len(ix.mutable))
 GoRecache(ix) == [ix EXCEPT !.cache = ix.mutable, !.recache = FALSE]                       \* _update_array_cache
-(* IndexGO.append: the membership test first (on the map-less form an integer value is compared with len(self), which    *)
+(* IndexGO.append: the membership test first (on the map-less form a non-negative integer is compared with len(self), which *)
 (* performs the deferred rebuild); a duplicate is rejected; otherwise map update or promotion, list append, recache := TRUE *)
 GoAppendIxP(ix, v, promote) ==
-  LET ix1 == IF ~ix.hasMap /\ Tag(v) = "i" /\ ix.recache THEN GoRecache(ix) ELSE ix IN
+  LET ix1 == IF ~ix.hasMap /\ Tag(v) = "i" /\ v[2] >= 0 /\ ix.recache THEN GoRecache(ix) ELSE ix IN          \* value >= 0 and value < len(self): len is only reached for a non-negative integer
   IF GoContains(ix1, v) THEN [ix |-> ix1, outcome |-> "rejected"]
   ELSE [ix |-> [mutable |-> Append(ix1.mutable, v), cache |-> ix1.cache, recache |-> TRUE,
                 hasMap |-> ix1.hasMap \/ (promote /\ ~IsCount(v, Len(ix1.mutable)))],        \* keeps the map-less form only for value = count
